@@ -767,3 +767,18 @@ def value_set(func: Func, e: ast.AST, at) -> List[Tuple[ast.AST, object]]:
                 out += value_set(func, d.value, d.node) if isinstance(d.value, ast.Name) else [(d.value, d.node)]
             return out
     return [(e, at)]
+
+
+def xexpand(ex: Expander, e: ast.AST, at, stop=None) -> ast.AST:
+    """Expander.expand, plus one idiom the engine leaves opaque: a name bound by `a, b = x, y` (tuple target and tuple
+    value of the same length) is replaced by its component"""
+    fl = ex.flow
+    if isinstance(e, ast.Name) and at is not None and not (stop and e.id in stop):
+        ds = fl.reaching(e.id, at)
+        if len(ds) == 1 and ds[0].kind == 'unpack' and isinstance(ds[0].stmt, ast.Assign) and len(ds[0].stmt.targets) == 1:
+            tgt, val = ds[0].stmt.targets[0], ds[0].stmt.value
+            if isinstance(tgt, (ast.Tuple, ast.List)) and isinstance(val, (ast.Tuple, ast.List)) and len(tgt.elts) == len(val.elts):
+                for t, v in zip(tgt.elts, val.elts):
+                    if isinstance(t, ast.Name) and t.id == e.id:
+                        return ex.expand(v, ds[0].node, stop=stop)
+    return ex.expand(e, at, stop=stop)
